@@ -103,7 +103,7 @@ def workloads(ctx):
                     heap=c.get("heap", "8M"), threads=int(c.get("threads", "1")))
         if c.get("minimised"):
             # minimised past failure: one tiny workload, every kind of cell
-            wl.append(dict(base, name=base["prog"], args=[], scale="one"))
+            wl.append(dict(base, name=base["prog"], args=[], scale="one", focus=c.get("focus")))
             continue
         wl.append(dict(base, name=base["prog"] + "@small", args=[c.get("small", "3")], scale="small"))
         wl.append(dict(base, name=base["prog"] + "@big", args=[c.get("big", "1000")], scale="big"))
@@ -435,9 +435,13 @@ def failure_key(cls, cell, w=None):
         if cell["backend"] == "cannon" and cell["gc"] != "swiper" and msg.startswith("not implemented") and "src/gc.rs" in site:
             # `Collector::to_swiper` default body: generational-only code reached under another collector
             return "oracle:abort:cannon-write-barrier-under-nongenerational-gc"
+        # file + message (not the line number, which moves with every edit) + collector; the back end is left out:
+        # a runtime assertion reached from both code generators is one defect
+        fil = re.sub(r":\d+$", "", re.sub(r"^.*/src/", "", site))
+        slug = re.sub(r"[^A-Za-z0-9]+", "-", msg).strip("-")[:60] or "panic"
         if "verify" in site:
-            return "oracle:gc-verify:%s:%s" % (re.sub(r"^.*/src/", "", site), bg)
-        return "oracle:abort:%s:%s" % (re.sub(r"^.*/src/", "", site), bg)
+            return "oracle:gc-verify:%s:%s:%s" % (fil, slug, cell["gc"])
+        return "oracle:abort:%s:%s:%s" % (fil, slug, cell["gc"])
     if cls[0] == "signal":
         return "oracle:signal:%s:%s" % (cls[1], bg)
     if cls[0] == "oom":
@@ -577,6 +581,13 @@ def run_matrix(ctx, tc, stats):
             all_pairs.update(cell_pairs(c))
         for c in cells:
             got_pairs.update(cell_pairs(c))
+        if w.get("focus"):
+            # minimised past failure: always run the cell kind it was found in, with both code generators
+            fg, ft = w["focus"].split("/")
+            for b in BACKENDS:
+                fc = dict(backend=b, gc=fg, stress="none", tlab=ft, workers="1", heap="h0", young="default")
+                if fc not in cells:
+                    cells = cells + [fc]
         for c in zero_cells(w, quick, rng) + cells:
             jobs.append((w, c))
         if w["threads"] > 1:
